@@ -73,6 +73,17 @@ impl MemTable {
         self.in_.entry(dst).or_default().push(key);
     }
 
+    /// Relationships held by this table that start or end at `node`.
+    pub fn edges_of(&self, node: InternalNodeId) -> impl Iterator<Item = EdgeKey> + '_ {
+        let outgoing = self.out.get(&node).into_iter().flatten();
+        let incoming = self.in_.get(&node).into_iter().flatten();
+        outgoing.chain(incoming).copied()
+    }
+
+    pub fn is_tombstoned_edge(&self, edge: &EdgeKey) -> bool {
+        self.tombstoned_edges.contains(edge)
+    }
+
     pub fn tombstone_node(&mut self, node: InternalNodeId) {
         self.tombstoned_nodes.insert(node);
     }
